@@ -124,7 +124,7 @@ def mkorigin(M, kind):
         if kind == "ideal":
             return UK.BoundaryDetector()
         if kind == "ramp":
-            return UK.AlineaRamp(2000.0)
+            return UK.AlineaRamp(2000.0) if D.FORMS["rng"].random() < 0.6 else UK.VirtualRamp()
         if kind == "simple":
             return UK.HovRamp(2000.0)
     if kind == "ideal":
